@@ -66,6 +66,8 @@ pub enum Book {
     B10,
     /// a reserve order whose hidden part is smaller than its replenish amount: RS(4,1,thr 3,amt 5,auto) S5
     B11,
+    /// a dormant order in front (nothing displayed, cannot replenish): IC(0,2) S5 S3
+    B12,
 }
 
 /// operations applied to the book before the threads start (start from a non-initial state)
@@ -94,6 +96,11 @@ pub fn book_orders(b: Book) -> Vec<Ord_> {
         Book::B4 => vec![mk_ts(Tmpl::RSn, 1, p, 1), mk_ts(Tmpl::S5, 2, p, 2)],
         Book::B6 => vec![mk_ts(Tmpl::IC23, 1, p, 1), mk_ts(Tmpl::RS36, 2, p, 2)],
         Book::B8 => vec![mk_ts(Tmpl::RSh, 1, p, 1), mk_ts(Tmpl::S5, 2, p, 2)],
+        Book::B12 => vec![
+            mk_ts(Tmpl::IC02, 1, p, 1),
+            mk_ts(Tmpl::S5, 2, p, 2),
+            mk_ts(Tmpl::S3, 3, p, 3),
+        ],
         Book::B9 | Book::B10 => (0..70).map(|i| crate::seq_level::bulk_order(i, p)).collect(),
         Book::B11 => vec![
             crate::seq_level::set_id_ts(
@@ -672,6 +679,8 @@ pub fn evaluate(prog: &Program, ex: &Exec, want_c14: bool) -> Vec<Finding> {
     };
 
     // ---- per-operation checks through the links
+    // links of a match that took an order out of the queue although nothing was left to match
+    let mut needless: HashSet<usize> = HashSet::new();
     let mut discarded: HashMap<u128, u128> = HashMap::new();
     let mut amend_adj: HashMap<u128, i128> = HashMap::new();
     let mut all_ops: Vec<((i8, u8), COp, Option<&OpResult>)> = vec![];
@@ -694,6 +703,7 @@ pub fn evaluate(prog: &Program, ex: &Exec, want_c14: bool) -> Vec<Finding> {
                     for l in &mine {
                         let Some(o) = order_of(l.id, l.out) else { continue };
                         if remaining == 0 {
+                            needless.insert(l.out_idx);
                             add(p, "link", false, format!(
                                 "{op:?} of thread {} took #{} out of the queue with nothing left to match", who.0, l.id));
                         }
@@ -938,6 +948,9 @@ pub fn evaluate(prog: &Program, ex: &Exec, want_c14: bool) -> Vec<Finding> {
                             } else if reinserted {
                                 let hop = op_of(prog, l.holder);
                                 let (sig, known) = match hop {
+                                    // the known window is "between taking an order it is matching against and putting the
+                                    // remainder back"; a match holding an order it had no quantity left for is something else
+                                    Some(COp::Match(_)) if needless.contains(&l.out_idx) => ("notfound_while_matcher_holds_needlessly", false),
                                     Some(COp::Match(_)) => ("notfound_while_matcher_holds", true),
                                     Some(COp::Amend(..)) => ("notfound_while_amend_holds", true),
                                     _ => ("notfound_while_held", false),
